@@ -129,6 +129,7 @@ struct Injector
   }
 };
 static Injector g_inj;
+static long g_cnt_reloc;      // element copy / move constructions (counted even when event logging is off)
 
 // events: [code, r, i, kind, fr, fi]
 //  code 1 ctor 2 assign 3 dtor 4 alloc 5 dealloc 6 deref 7 incr 8 gen
@@ -318,6 +319,7 @@ struct Tracked
   {
     g_inj.tick (FK_COPY);
     magic = MAGIC_ALIVE;
+    ++g_cnt_reloc;
     obj_event (1, this, 1, &o, o.magic != MAGIC_ALIVE);
   }
 
@@ -340,6 +342,7 @@ struct Tracked
     g_inj.tick (FK_MOVE);
 #endif
     magic = MAGIC_ALIVE;
+    ++g_cnt_reloc;
     obj_event (1, this, 2, &o, o.magic != MAGIC_ALIVE);
     o.mf = 1;
   }
@@ -817,12 +820,12 @@ static void probe_one (FILE *f, V &v)
   int st = store_of (v);
   fprintf (f, "{\"p\":true,\"e\":[");
   typename V::size_type n = v.size ();
-  unsigned long long lim = n > 4096 ? 4096 : n;    // long-run stimuli: log a prefix only
+  unsigned long long lim = n > 4096 ? 32 : n;      // long-run stimuli: log a short prefix only ("etrunc")
   for (unsigned long long i = 0; i < lim; ++i)
     fprintf (f, "%s[%d,%d]", i ? "," : "", val_of (v.data ()[i]), mf_of (v.data ()[i]));
   int va = n <= 4096 ? views_agree (v) : 3;
-  fprintf (f, "],\"sz\":%ld,\"cap\":%ld,\"st\":%d,\"al\":%d,\"inl\":%s,\"inlb\":%s,\"max\":%ld,\"icap\":%ld,\"ok\":%s,\"nm\":%s}",
-           clamp30 (n), clamp30 (v.capacity ()), st, alloc_id (v.get_allocator ()),
+  fprintf (f, "],%s\"sz\":%ld,\"cap\":%ld,\"st\":%d,\"al\":%d,\"inl\":%s,\"inlb\":%s,\"max\":%ld,\"icap\":%ld,\"ok\":%s,\"nm\":%s}",
+           n > 4096 ? "\"etrunc\":true," : "", clamp30 (n), clamp30 (v.capacity ()), st, alloc_id (v.get_allocator ()),
            v.inlined () ? "true" : "false", v.inlinable () ? "true" : "false",
            clamp30 (v.max_size ()), clamp30 (V::inline_capacity ()),
            (va & 1) ? "true" : "false", (va & 2) ? "true" : "false");
@@ -853,6 +856,7 @@ struct OpResult
   long ret;            // op-specific return (index / count / bitmask); -1 none
   std::vector<int> vals;   // fresh values used by the op (argument or range contents)
   int  ret2;
+  std::vector<long> chain; long nalloc, nreloc; bool has_chain;
 };
 
 static std::vector<Elem> *g_src;       // source array for ranges (ext region, base 0)
@@ -1186,10 +1190,22 @@ static void op_unary (V &v, const Op &op, OpResult &res)
     }
   else if (! std::strcmp (nm, "push_n"))
     {
-      // long append run (C14): a0 = count; only counters are reported
-      g_logging = true; g_inj.armed = false;
-      for (long i = 0; i < op.a[0]; ++i) v.emplace_back (static_cast<int> (i & 0xffff));
+      // long append run (C14): a0 = count.  Element events are not logged; the capacity chain, the number of
+      // allocations and the number of element relocations are reported instead.
+      g_logging = false; g_inj.armed = false;
+      int blocks0 = g_nblk;
+      long reloc0 = g_cnt_reloc;
+      res.chain.clear ();
+      res.chain.push_back (static_cast<long> (v.capacity ()));
+      for (long i = 0; i < op.a[0]; ++i)
+        {
+          v.emplace_back (static_cast<int> (i & 0x7fff));
+          if (static_cast<long> (v.capacity ()) != res.chain.back ()) res.chain.push_back (static_cast<long> (v.capacity ()));
+        }
       res.ret = op.a[0];
+      res.nalloc = g_nblk - blocks0;
+      res.nreloc = ELEM_TRACKED ? (g_cnt_reloc - reloc0) : -1;
+      res.has_chain = true;
     }
   else
     res.out = "skip";
@@ -1522,7 +1538,7 @@ static bool is_ctor (const Op &op) { return ! std::strncmp (op.name, "ctor_", 5)
 static const char *g_last_out;
 static bool run_op (const Stim &st, int idx, const Op &op, long k1, long k2, bool emit, long *nfall)
 {
-  OpResult res; res.out = "ok"; res.ret = -1; res.ret2 = -1;
+  OpResult res; res.out = "ok"; res.ret = -1; res.ret2 = -1; res.has_chain = false; res.nalloc = 0; res.nreloc = 0;
   g_nev = 0; g_ev_trunc = false; g_ntmp = 0; g_next = 0;
   g_inj.reset (k1, k2);
 
@@ -1606,6 +1622,12 @@ static bool run_op (const Stim &st, int idx, const Op &op, long k1, long k2, boo
       fprintf (mf, "\"fk\":[%d,%d],\"nf\":%ld,\"out\":\"%s\",\"ret\":%ld,\"ret2\":%d,\"v\":[", g_inj.fk1, g_inj.fk2, g_inj.count, res.out, res.ret, res.ret2);
       for (size_t i = 0; i < res.vals.size (); ++i) fprintf (mf, "%s%d", i ? "," : "", res.vals[i]);
       fprintf (mf, "],");
+      if (res.has_chain)
+        {
+          fprintf (mf, "\"chain\":[");
+          for (size_t i = 0; i < res.chain.size (); ++i) fprintf (mf, "%s%ld", i ? "," : "", clamp30 (static_cast<unsigned long long> (res.chain[i])));
+          fprintf (mf, "],\"nalloc\":%ld,\"nreloc\":%ld,", res.nalloc, res.nreloc);
+        }
       emit_events (mf);
       probe_all (mf);
       fprintf (mf, "}\n");
